@@ -940,7 +940,10 @@ class AttrParser(BaseParser):
 
             # Handle splat values given in hex
             if len(bytes_values) == type.element_type.compile_time_size:
-                bytes_values *= type_num_values
+                try:
+                    bytes_values *= type_num_values
+                except (OverflowError, MemoryError):
+                    self.raise_error("dense splat literal is too large")
 
             # Create attribute
             attr = DenseIntOrFPElementsAttr(type, BytesAttr(bytes_values))
@@ -968,7 +971,10 @@ class AttrParser(BaseParser):
                     )
             else:
                 assert len(data_values) == 1, "Fatal error in parser"
-                data_values *= type_num_values
+                try:
+                    data_values *= type_num_values
+                except (OverflowError, MemoryError):
+                    self.raise_error("dense splat literal is too large")
 
         if isinstance(type.element_type, AnyFloat):
             new_type = cast(RankedStructure[AnyFloat], type)
